@@ -419,6 +419,13 @@ func (c *Ctx) evalIdent(name string, env *Env) *Val {
 	case "nil":
 		return &Val{K: VScalar, Lit: big.NewInt(0)}
 	}
+	// a parameter that the function re-assigns lives in a variable of the same name: the
+	// plain name means its current content, old(name) its value on entry
+	if _, isParam := c.paramVals[name]; isParam && !env.noLocals && !env.inOld && c.fn != nil {
+		if v := c.currentOfSpilledParam(name, env); v != nil {
+			return v
+		}
+	}
 	if v, ok := env.names[name]; ok {
 		return v
 	}
